@@ -4,7 +4,9 @@ C01  Conversion accepts exactly the members of the type and returns the typed va
 Oracle: the reference interpreter of pv/tg.py + pv/cg.py (three-valued).
     Acc(image)  -> from_data must return, and same(result, image)
     Rej         -> from_data must raise ConvertError
-    Unspec      -> counted, not asserted (DESIGN section 2)
+    Unspec      -> verdict counted, not asserted (DESIGN section 2)
+    any verdict -> a returned value is shaped like an image of T at every depth (pv/typed.py): exactly int where int
+                   is declared (not bool, a user subclass or an IntEnum member), list for List, tuple for Sequence, ...
 Determinism: each case is evaluated a second time on a freshly built,
 structurally equal type object and a deep copy of the value.
 """
@@ -18,6 +20,7 @@ from ..core import Suite, Ctx
 from .. import tg, cg, gen
 from ..same import same
 from ..codec import short, clone
+from ..typed import shape_error
 from ..oracles import outcome, judge_conv, conv_disagreement, report
 
 ID = 'C01'
@@ -57,6 +60,12 @@ def check(case: t.Any, ctx: Ctx) -> None:
 
     out1 = outcome(lambda: pane.from_data(v, T))
     judge(ctx, nd, r, out1, v, 'from_data')
+    if out1[0] == 'ok':
+        # whatever the verdict oracle says (also in its unspecified cells): a returned value is the exactly-typed image at every depth
+        ctx.evaluated()
+        d = shape_error(nd, out1[1])
+        if d is not None:
+            ctx.fail('exactly-typed', nd.kind, f"from_data({short(v, 200)}, {nd.render()[:300]}) returned {short(out1[1], 150)}: {d}")
 
     if nd.kind == 'dataclass':
         out_c = outcome(lambda: T.from_data(v))
